@@ -46,7 +46,9 @@ def history(rng, k, n_steps):
         elif u < 0.3:
             do('set_feed', dr.random_feed(rng, st, ref_T=rng.random() < 0.4))
             reacted = 0
-        elif u < 0.45:
+        elif u < 0.34:
+            do('set_Hf', dict(i=rng.randrange(len(dr.IDS)) + 1, v=rng.choice([-100, 0, -300, 40, -250])))
+        elif u < 0.47:
             do('dH', dict(j=rng.randrange(len(st['items'])) + 1))
         elif reacted >= (2 if small(w) else 1):
             do('set_feed', dr.random_feed(rng, st, ref_T=rng.random() < 0.4))
@@ -114,7 +116,9 @@ def replay(ctx, data):
     w = dr.World()
     pre = rp['init']
     w.apply('load', dict(set=pre['rs'])) if pre['rs']['kind'] != 'none' else None
-    w.apply('set_feed', dict(kind=pre['kind'], m=pre['m'], d3=pre['d3']))
+    for i, v in enumerate(pre['hf'], 1):
+        w.apply('set_Hf', dict(i=i, v=v))
+    w.apply('set_feed', dict(kind=pre['kind'], m=pre['m'], d3=pre['d3'], multi=bool(pre['rs']['items'] and pre['rs']['items'][0]['tag'])))
     init = w.project()
     steps = []
     for s in rp['steps']:
